@@ -332,6 +332,10 @@ def written_as_held(model: Model, run: Run) -> None:
                     if isinstance(x, ast.Call) and isinstance(x.func, ast.Name) and x.func.id in LOSSY_CALLS and x.args and \
                             (from_field(x.args[-1]) or (isinstance(x.args[-1], ast.Name) and any(from_field(b) for b in binds.get(x.args[-1].id, [])))):
                         return x
+                    # dict.fromkeys(xs) / collections.OrderedDict.fromkeys(xs) / Counter(xs): keeps the order and drops the repeats
+                    if isinstance(x, ast.Call) and isinstance(x.func, ast.Attribute) and (x.func.attr == "fromkeys" or norm(x.func).split(".")[-1] in ("Counter", "unique_everseen")) and x.args and \
+                            (from_field(x.args[0]) or (isinstance(x.args[0], ast.Name) and any(from_field(b) for b in binds.get(x.args[0].id, [])))):
+                        return x
                     if isinstance(x, ast.Subscript) and isinstance(x.slice, ast.Slice) and (x.slice.lower is not None or x.slice.upper is not None or x.slice.step is not None) and \
                             (from_field(x.value) or (isinstance(x.value, ast.Name) and any(from_field(b) for b in binds.get(x.value.id, [])))):
                         return x
